@@ -494,6 +494,10 @@ def simplifyLoop (E : Env) : List Nat → List Con → CM (List Con)
     if (s.child j).simplified then simplifyLoop E rest (new ++ (s.child j).constraints)
     else do
       let _ ← CM.onChild j (childOps E).simplify
+      -- `if any(c.is_false() for c in s.constraints): self._unsat = True` (a variable-free False belongs to none of the parts)
+      let s1 ← CM.get
+      if (s1.child j).constraints.any (fun c => c.conc == some false) then
+        CM.modifyC fun c => { c with unsat := true }
       let parts ← splitChild E j
       parts.forM markSimplified
       let s ← CM.get
